@@ -97,6 +97,7 @@ type Engine struct {
 	unsupported map[string]int
 	expectFail  map[string]bool
 	mustFailSat map[string]int
+	twinVec     map[string][]map[string]interface{}
 	notes       map[string]int
 }
 
@@ -105,7 +106,7 @@ func NewEngine(prog *ssa.Program, entry *ssa.Function, cfg Config) *Engine {
 		ends: map[string]int{}, endSamples: map[string][]string{}, oblig: map[string]*Obligation{},
 		covers: map[string]int{}, coverDecl: map[string]bool{}, violSeen: map[string]int{},
 		funcs: map[string]int{}, stubs: map[string]int{}, assumes: map[string]int{}, sigs: map[string]bool{},
-		unsupported: map[string]int{}, expectFail: map[string]bool{}, mustFailSat: map[string]int{}, notes: map[string]int{}}
+		unsupported: map[string]int{}, expectFail: map[string]bool{}, mustFailSat: map[string]int{}, twinVec: map[string][]map[string]interface{}{}, notes: map[string]int{}}
 	e.cond = sync.NewCond(&e.mu)
 	return e
 }
@@ -1186,6 +1187,14 @@ func (in *Interp) assertTerm(c *Term, tag string, mustFail bool) {
 		e.expectFail[tag] = true
 		if v == Sat {
 			e.mustFailSat[tag]++
+			if _, have := e.twinVec[tag]; !have && m != nil {
+				// witness of the deliberately false twin: replayed natively by the driver as a
+				// translator validation (the native run must fail the twin as well)
+				save := in.model
+				in.model = m
+				e.twinVec[tag] = in.vector(m)
+				in.model = save
+			}
 		}
 	}
 	e.mu.Unlock()
